@@ -4,7 +4,8 @@
    What is proved here is about the *regenerated* escape tables (Tables.v is rewritten from
    impls/mod.rs and ast/basic_type.rs on every run): every strict or reserved Rust keyword
    that can be written as an XDR identifier is escaped to <word>_v by both tables, the two
-   tables agree, and BasicType::as_str is the table the model uses.  PARTIAL: a checker
+   tables agree, BasicType::as_str is the table the model uses, and for EVERY name the escaped
+   spelling is not a keyword (C07_safe_name_never_a_keyword).  PARTIAL: a checker
    wf_module for the emitted fragment is not part of the development.
    Proofs in XdrProofs.MiscProofs. *)
 From XdrProofs Require Import MiscProofs.
@@ -44,6 +45,13 @@ Theorem C07_other_names_unchanged :
   forall k, mem k safe_keywords = false -> mem k safe_lowercase = false -> safe_name k = k.
 Proof. exact safe_name_other. Qed.
 Print Assumptions C07_other_names_unchanged.
+
+(* for EVERY name: the spelling a field, discriminant or label is printed under is not a Rust
+   keyword, except the literals true / false that TRUE / FALSE are lower-cased to *)
+Theorem C07_safe_name_never_a_keyword :
+  forall s, In (safe_name s) rust_keywords -> mem s safe_lowercase = true.
+Proof. exact safe_name_not_keyword. Qed.
+Print Assumptions C07_safe_name_never_a_keyword.
 
 Example C07_variant_names :
   variant_name "4" = "v_4"%string /\ variant_name "NFS4_OK" = "NFS4_OK"%string /\ variant_name "type" = "type"%string.
